@@ -842,6 +842,38 @@ def rule_first_match(model):
     return r
 
 
+def rule_every_item(model):
+    r = RuleResult('C16.R7', 'every item takes part in the statistics or is '
+                   'skipped on its own: the item loop is never left early '
+                   '(no break / return inside it), so one item without the '
+                   'value does not hide the items after it')
+    fi = _fi(model)
+    loop = _item_loop(fi)
+    exits = [x for x in ast.walk(loop)
+             if isinstance(x, (ast.Break, ast.Return))]
+    # a break that belongs to an inner loop is not an exit of this one
+    real = []
+    for x in exits:
+        inner = False
+        for anc in ancestors(x):
+            if anc is loop:
+                break
+            if isinstance(anc, (ast.For, ast.While)) and \
+                    isinstance(x, ast.Break):
+                inner = True
+        if not inner:
+            real.append(x)
+    r.instance(fi.where, f'for {norm(loop.target)} in {norm(loop.iter)}',
+               'runs over all items' if not real else 'LEFT EARLY')
+    for x in real:
+        r.finding(fi.where, f'{norm(x)} inside the item loop', 'the item '
+                  'loop of the statistics is left early: once one item '
+                  'cannot provide the value, all later items are dropped '
+                  'from count, total, extremes, mean, variance and median',
+                  node=x, ctx=fi)
+    return r
+
+
 def _inl(rule):
     """The formula rules follow one function (statistics): they run on the
     view in which helpers that are new w.r.t. the reference tree (a
@@ -853,7 +885,7 @@ def _inl(rule):
 
 
 RULES = [_inl(rule_formulas), _inl(rule_extremes), _inl(rule_median),
-         _inl(rule_missing), rule_first_match]
+         _inl(rule_missing), rule_first_match, _inl(rule_every_item)]
 EXPLANATION = (
     'Formula agreement over the domain of rational functions (canonical '
     'quotients of polynomials in S1, S2, n; sqrt uninterpreted): one loop '
